@@ -22,24 +22,14 @@ REDIRECTION_DOMAINS_RE = re.compile(
 )
 
 
-def infer_redirection(url, recursive=True):
+def infer_redirection_target(url):
     """
-    Function returning the url that the given url will redirect to. This is done
-    by finding obvious hints in the GET parameters that the given url is in
-    fact a redirection.
-
-    Args:
-        url (string): Target url.
-        recursive (bool): Whether to apply the function recursively until
-            no redirection can be inferred. Defaults to `True`.
-
-    Returns:
-        string: Redirected url or the original url if nothing was found.
+    Function returning the url that the given url obviously redirects to, or
+    `None` if no redirection can be inferred (a single hop).
     """
 
     # NOTE: hints are searched in the url cleaned the way the url functions
     # clean their input, so that surrounding whitespace hides nothing
-    original_url = url
     url = CONTROL_CHARS_RE.sub("", url).strip()
 
     redirection_split = REDIRECTION_DOMAINS_RE.split(url, 1)
@@ -57,7 +47,7 @@ def infer_redirection(url, recursive=True):
         if obvious_redirect_match is not None:
             if obvious_redirect_match.group(1) == "q":
                 if "/url?q=" not in url and "/redirect" not in url:
-                    return original_url
+                    return None
 
             potential_target = unquote(obvious_redirect_match.group(2))
 
@@ -80,7 +70,7 @@ def infer_redirection(url, recursive=True):
                     else:
                         target = urljoin("http://" + url, potential_target)[7:]
                 except ValueError:
-                    return original_url
+                    return None
 
             # Idiotic youtube redirections
             elif "youtube.com/redirect?" in url:
@@ -89,9 +79,35 @@ def infer_redirection(url, recursive=True):
     # NOTE: a genuine target is embedded in the url, hence strictly shorter.
     # Following anything else could go on forever.
     if target is None or len(target) >= len(url):
-        return original_url
-
-    if recursive:
-        return infer_redirection(target, recursive=True)
+        return None
 
     return target
+
+
+def infer_redirection(url, recursive=True):
+    """
+    Function returning the url that the given url will redirect to. This is done
+    by finding obvious hints in the GET parameters that the given url is in
+    fact a redirection.
+
+    Args:
+        url (string): Target url.
+        recursive (bool): Whether to apply the function recursively until
+            no redirection can be inferred. Defaults to `True`.
+
+    Returns:
+        string: Redirected url or the original url if nothing was found.
+    """
+
+    # NOTE: hops are followed by looping, not recursing: an url nesting a
+    # thousand redirections must not exhaust the stack
+    while True:
+        target = infer_redirection_target(url)
+
+        if target is None:
+            return url
+
+        if not recursive:
+            return target
+
+        url = target
